@@ -94,6 +94,47 @@ func Choose(n int, tag uint32) int {
 	return int(choice)
 }
 
+// SelectPick decides which case of a blocking select runs under the scheduler: -1 when none is ready (the caller
+// polls and asks again), the only ready one, or - several being ready, where the runtime would pick at random - an
+// environment choice among them (default: the first in source order). Bit i of sendMask marks case i as a send.
+//
+//go:norace
+func SelectPick(sendMask uint32, chans ...interface{}) int {
+	var ready [32]int8
+
+	n := 0
+
+	for i := range chans {
+		p := (*[2]unsafe.Pointer)(unsafe.Pointer(&chans[i]))[1]
+		if p == nil || i >= 32 {
+			continue
+		}
+
+		ok := chClosed(p)
+		if !ok {
+			if sendMask&(1<<uint(i)) != 0 {
+				ok = chLen(p) < chCap(p)
+			} else {
+				ok = chLen(p) > 0
+			}
+		}
+
+		if ok {
+			ready[n] = int8(i)
+			n++
+		}
+	}
+
+	switch n {
+	case 0:
+		return -1
+	case 1:
+		return int(ready[0])
+	}
+
+	return int(ready[Choose(n, 0x5e1ec7)])
+}
+
 // MakeChan replaces make(chan T, n) in instrumented code (currently unused by the rewriter).
 func MakeChan[T any](n int) chan T {
 	return make(chan T, n)
